@@ -620,8 +620,29 @@ def run(ctx: Any, prog: Program) -> None:
                               f'by_class and by_target (removed from: {sorted(removed)}) or it stays in the lookups as a ghost entity', func=qual,
                               text=f'{base}.spawn replaced')
 
+    # ---- I3 (adding): add_ent / add_ents file every entity they append --------------------------------------------------------------------------
+    # An entity in `entities` is in `by_class` under its (possibly blank) class and in `by_target` under its name or None.  Filing it only
+    # when the classname is non-empty leaves a class-less entity out of by_class[''], where remove_ent and __setitem__ expect it.
+    for mname_ in ('add_ent', 'add_ents'):
+        af_ = vm.methods('VMF').get(mname_)
+        if af_ is None:
+            raise AnalysisError(f'anchor vanished: VMF.{mname_}')
+        adds_ = [c for c in ast.walk(af_) if isinstance(c, ast.Call) and isinstance(c.func, ast.Attribute) and c.func.attr == 'add' and isinstance(c.func.value, ast.Subscript) and (dotted(c.func.value.value) or '').endswith('by_class')]
+        ctx.shape('C07.I3', len(adds_) >= 1, vm, af_, f'VMF.{mname_} adds the entity to by_class', func=f'VMF.{mname_}', text=f'{mname_}: files under by_class')
+        for ad_ in adds_:
+            conds_ = []
+            ch_ = ad_
+            an_ = vm.parents.get(ch_)
+            while an_ is not None and an_ is not af_:
+                if isinstance(an_, (ast.If, ast.IfExp)):
+                    conds_.append(an_)
+                ch_, an_ = an_, vm.parents.get(an_)
+            ctx.check('C07.I3', not conds_, vm, ad_, f'VMF.{mname_} files the entity under by_class only when `{U(conds_[0].test)[:50] if conds_ else ""}`: an entity for which the test fails is in `entities` but in no class set, '
+                      'so by_class disagrees with the entity list (and with remove_ent / __setitem__, which look for it under the blank class)', func=f'VMF.{mname_}', text=f'{mname_}: by_class filing is unconditional')
+
 
 MUTANTS = [
+    {'id': 'add_ent_skips_classless', 'file': 'vmf.py', 'find': "        self.by_class[item['classname', ''].casefold()].add(item)\n", 'replace': "        if item['classname', '']:\n            self.by_class[item['classname', ''].casefold()].add(item)\n", 'expect': 'C07.I3', 'note': 'round 13'},
     {'id': 'make_unique_claims_the_name', 'file': 'vmf.py', 'find': "            # The base name is free!\n            self['targetname'] = base_name\n", 'replace': "            # The base name is free!\n            self['targetname'] = base_name\n            self.map.by_target[base_name.casefold() or None].add(self)\n", 'expect': 'C07.I3'},
     {'id': 'add_ent_folds_with_lower', 'file': 'vmf.py', 'find': "        self.by_class[item['classname', ''].casefold()].add(item)\n        self.by_target[item['targetname', ''].casefold() or None].add(item)", 'replace': "        self.by_class[item['classname', ''].lower()].add(item)\n        self.by_target[item['targetname', ''].lower() or None].add(item)", 'expect': 'C07.I1'},
     {'id': 'search_wildcard_walks_live_index', 'file': 'vmf.py', 'find': "            for ent_name, ents in list(self.by_target.items()):\n                if ent_name is not None and ent_name.casefold().startswith(name):", 'replace': "            for ent_name, ents in self.by_target.items():\n                if ent_name is not None and ent_name.casefold().startswith(name):", 'expect': 'C07.I5'},
